@@ -128,7 +128,13 @@ I_C04_EffectiveVolumes(i) ==
        \* with no PIT, an account's effective volumes are its totals
        /\ \A a \in ToSet(o.accts) : ToSet(a.evol) = {w \in VolsOf(ToLS(o)) : w.a = a.addr})
 
-I_C08_Journal(i) == Obs(i, LAMBDA o : JournalOK(ToLS(o)))
+\* C09: every stored hash is the documented chain hash of its log over the hash of the log just before it
+\* (the projection recovers the predecessor by recomputing with the repository's Log.ComputeHash; -1 = the
+\* stored hash is reproduced by no predecessor)
+I_C09_HashChain(i) ==
+  Obs(i, LAMBDA o : o.flags.hash =>
+        \A k \in DOMAIN o.logs : o.chain[k] = (IF k = 1 THEN 0 ELSE o.logs[k - 1].id))
+I_C08_Journal(i) ==Obs(i, LAMBDA o : JournalOK(ToLS(o)))
 I_C14_UniqueRefs(i) == Obs(i, LAMBDA o : UniqueRefs(ToLS(o)))
 I_C15_Reverts(i) == Obs(i, LAMBDA o : RevertsOK(ToLS(o)))
 I_C16_Ids(i) == Obs(i, LAMBDA o : IdsIncreasing(ToLS(o)))
@@ -320,6 +326,7 @@ Inv_C02_VolumesAreFold == l >= 1 => I_C02_VolumesAreFold(l)
 Inv_C03_PostCommitVolumes == l >= 1 => I_C03_PostCommitVolumes(l)
 Inv_C04_EffectiveVolumes == l >= 1 => I_C04_EffectiveVolumes(l)
 Inv_C08_Journal == l >= 1 => I_C08_Journal(l)
+Inv_C09_HashChain == l >= 1 => I_C09_HashChain(l)
 Inv_C14_UniqueRefs == l >= 1 => I_C14_UniqueRefs(l)
 Inv_C15_Reverts == l >= 1 => I_C15_Reverts(l)
 Inv_C16_Ids == l >= 1 => I_C16_Ids(l)
@@ -360,6 +367,7 @@ StateChecks(i) ==
      <<"Inv_C03_PostCommitVolumes", I_C03_PostCommitVolumes(i)>>,
      <<"Inv_C04_EffectiveVolumes", I_C04_EffectiveVolumes(i)>>,
      <<"Inv_C08_Journal", I_C08_Journal(i)>>,
+     <<"Inv_C09_HashChain", I_C09_HashChain(i)>>,
      <<"Inv_C14_UniqueRefs", I_C14_UniqueRefs(i)>>,
      <<"Inv_C15_Reverts", I_C15_Reverts(i)>>,
      <<"Inv_C16_Ids", I_C16_Ids(i)>>,
